@@ -8,7 +8,11 @@
 (*   log   sequence of retained records [off, ts, key] in offset order      *)
 (*         (offset gaps = compaction, first offset > 0 = retention)         *)
 (*   segs  sequence of segment base offsets (segment k holds the records    *)
-(*         with segs[k] <= off < segs[k+1])                                 *)
+(*         with segs[k] <= off < segs[k+1]).  Only the last (active)        *)
+(*         segment can be empty: the window between a roll done by the      *)
+(*         cleaner tick (active segment full or too old) and the next       *)
+(*         publish; its base offset is the log end.  A log whose messages   *)
+(*         are all gone (retention) is <<>> with one segment of base b > 0  *)
 (*   hw    high watermark (-1 none); records above it are not committed     *)
 (*   ro    partition is read-only                                           *)
 (*   subs  subscription id -> record                                        *)
@@ -85,8 +89,11 @@ FirstTsIdx(recs, t) == LET I == {i \in 1..Len(recs) : recs[i].ts >= t}
 
 \* findSegmentIndexByTimestamp: 0-based index of the first segment whose first
 \* record has a timestamp greater than t (number of segments if none).
-\* Domain: every segment holds a record unless the log is empty.
-SegIdxByTs(l, ss, t) == LET I == {k \in 1..Len(ss) : SegRecs(l, ss, k)[1].ts > t}
+\* An empty segment behind other segments (the active segment right after a roll)
+\* has no base timestamp and sorts after every timestamp.
+\* Domain: every segment but the last holds a record unless the log is empty.
+SegIdxByTs(l, ss, t) == LET I == {k \in 1..Len(ss) : LET r == SegRecs(l, ss, k) IN
+                                                       IF r = <<>> THEN k > 1 ELSE r[1].ts > t}
                         IN IF I = {} THEN Len(ss) ELSE MinS(I) - 1
 
 \* commitLog.EarliestOffsetAfterTimestamp
@@ -98,7 +105,9 @@ EarliestAfterTs(l, ss, t) ==
            r   == SegRecs(l, ss, k)
            i   == FirstTsIdx(r, t)
        IN IF i # 0 THEN r[i].off
-          ELSE IF (IF Fix.tsedge THEN idx < n ELSE idx < n - 1)
+          \* the next segment is searched: its first record if it has one (the
+          \* time of that record is greater than t), the log end if it is empty
+          ELSE IF (IF Fix.tsedge THEN idx < n ELSE idx < n - 1) /\ SegRecs(l, ss, idx + 1) # <<>>
                THEN SegRecs(l, ss, idx + 1)[1].off
                ELSE NewestOf(l, ss) + 1
 
@@ -367,6 +376,15 @@ DoReadonly(b) ==
   /\ ro' = b
   /\ obs' = [a |-> "Readonly", err |-> "", got |-> <<>>, st |-> ""]
   /\ UNCHANGED <<log, segs, hw, subs>>
+
+\* the first half of a cleaner tick: the active segment is rolled when it is full or
+\* old enough (which of the two is the commit log's business: here whenever it holds
+\* a record); the new active segment is empty and its base offset is the log end
+DoRoll ==
+  /\ SegRecs(log, segs, Len(segs)) # <<>>
+  /\ segs' = Append(segs, Newest + 1)
+  /\ obs' = [a |-> "Roll", err |-> "", got |-> <<>>, st |-> "rolled"]
+  /\ UNCHANGED <<log, hw, ro, subs>>
 
 \* the cleaner removes committed records from the segments before the active one
 \* (which ones is Cleaner.tla's business: here any set `gone`) and drops emptied segments
